@@ -23,21 +23,22 @@ type C01Script struct {
 }
 
 type c01run struct {
-	s        *Sess
-	o        *sim.Outcome
-	sc       *C01Script
-	m        *ref.Party
-	mRand    *sim.Rand
-	nMExp    int
-	recorded [][]byte   // wires of an earlier AKE between the same long-term keys
-	recPubs  []*big.Int // DH public values of that earlier session
-	foreign  []*big.Int // DH values put on the wire by the adversary (mutated / degenerate)
-	fps      [3][]byte
-	lastSeen [2]string
-	touched  bool // an attacker op touched an AKE message that was then delivered
-	sigSeen  bool // some party processed a Reveal-Signature / Signature message
-	complete int
-	whoIs    [2]int
+	s         *Sess
+	o         *sim.Outcome
+	sc        *C01Script
+	m         *ref.Party
+	mRand     *sim.Rand
+	nMExp     int
+	restarted bool
+	recorded  [][]byte   // wires of an earlier AKE between the same long-term keys
+	recPubs   []*big.Int // DH public values of that earlier session
+	foreign   []*big.Int // DH values put on the wire by the adversary (mutated / degenerate)
+	fps       [3][]byte
+	lastSeen  [2]string
+	touched   bool // an attacker op touched an AKE message that was then delivered
+	sigSeen   bool // some party processed a Reveal-Signature / Signature message
+	complete  int
+	whoIs     [2]int
 }
 
 func ssidOf(s *big.Int) []byte {
@@ -450,6 +451,7 @@ func runC01(sc *C01Script) *sim.Outcome {
 				w.AgeClock(1-who, 3*60e9)
 				w.Query(who)
 				o.Class("client-restarted")
+				r.restarted = true
 			}
 		case "start":
 			w.AgeClock(who, 3*60e9)
@@ -478,8 +480,31 @@ func runC01(sc *C01Script) *sim.Outcome {
 				w.Q[who] = append(w.Q[who][:i:i], append([]*sim.Wire{&cp}, w.Q[who][i:]...)...)
 			}
 			o.Class(fmt.Sprintf("mut-type%02x-kind%d", h.Type, op.X%12))
+		case "talk":
+			// ordinary traffic in a session that exists (message counters and key ids move on)
+			if w.P[0].C.IsEncrypted() && w.P[1].C.IsEncrypted() && w.P[0].C.GetSSID() == w.P[1].C.GetSSID() {
+				w.Q[0], w.Q[1] = nil, nil
+				for i := 0; i <= op.I%4; i++ {
+					s.Send(who, s.Text(who, 6, 0))
+					s.Exec(SOp{K: "flush"})
+				}
+				o.Class("traffic-before")
+			}
 		case "injrec":
 			wire := r.recorded[op.I%len(r.recorded)]
+			if op.F%2 == 1 && sc.Cfg.V == 3 {
+				// addressed as if it belonged here: the instance tags the receiver expects (they travel in the clear)
+				if raw, ok := ref.Dearmor(wire); ok && len(raw) > 11 {
+					st := w.P[who].C.GetTheirInstanceTag()
+					if st == 0 {
+						st = w.P[1-who].C.GetOurInstanceTag()
+					}
+					raw = append([]byte{}, raw...)
+					copy(raw[3:], ref.PutU32(nil, st))
+					copy(raw[7:], ref.PutU32(nil, w.P[who].C.GetOurInstanceTag()))
+					wire = ref.Armor(raw)
+				}
+			}
 			r.noteSig(wire)
 			r.touched = true
 			w.Receive(who, wire)
@@ -545,15 +570,21 @@ func runC01(sc *C01Script) *sim.Outcome {
 		}
 		o.Class("completed-under-attack")
 	}
-	o.NonTrivial = r.touched && r.sigSeen
+	o.NonTrivial = r.touched && r.sigSeen || r.restarted && a.IsEncrypted() && b.IsEncrypted()
 	return o
 }
 
-func init() { reg("C01attack", runC01); reg("C01degenerate", runC01); reg("C01sweep", runC01Sweep) }
+func init() {
+	reg("C01attack", runC01)
+	reg("C01degenerate", runC01)
+	reg("C01stray", runC01)
+	reg("C01restart", runC01)
+	reg("C01sweep", runC01Sweep)
+}
 
 func TestProp_C01_Attack(t *testing.T) {
 	defer sim.MarkCompleted("C01attack", false)
-	kinds := []string{"start", "start", "restart", "dl", "dl", "dl", "dl", "dl", "dup", "drop", "mut", "mut", "mut", "mut", "injrec", "mrun", "mrun", "mpartial", "mdegen", "mdegen", "flush", "flush"}
+	kinds := []string{"start", "start", "restart", "talk", "dl", "dl", "dl", "dl", "dl", "dup", "drop", "mut", "mut", "mut", "mut", "injrec", "mrun", "mrun", "mpartial", "mdegen", "mdegen", "flush", "flush"}
 	rapid.Check(t, func(rt *rapid.T) {
 		sc := &C01Script{Cfg: genSessCfg(rt), KeyM: rapid.IntRange(0, 5).Draw(rt, "km")}
 		sc.Cfg.FragA, sc.Cfg.FragB = 0, 0
@@ -705,6 +736,74 @@ func TestProp_C01_Sweep(t *testing.T) {
 
 // TestProp_C01_Degenerate enumerates the degenerate-value attacker: 4 values x 2 roles x one/two step x
 // victim plaintext/encrypted x both versions.
+// TestProp_C01_Stray: every point of a handshake (also one inside a running session) x either receiver x every
+// message of a recorded earlier exchange between the same long-term keys, addressed as the receiver expects; then
+// the handshake goes on, and the final probe asks whether the two can read each other.
+func TestProp_C01_Stray(t *testing.T) {
+	si, sn := sim.Shard()
+	idx := 0
+	for _, v := range []int{3, 2} {
+		for starter := 0; starter < 2; starter++ {
+			for pre := 0; pre < 2; pre++ {
+				for k := 0; k <= 4; k++ {
+					for rcv := 0; rcv < 2; rcv++ {
+						for j := 0; j < 7; j++ {
+							idx++
+							if idx%sn != si {
+								continue
+							}
+							sc := &C01Script{Cfg: SessCfg{V: v, SeedA: 720, SeedB: 821, KeyA: 0, KeyB: 3}, KeyM: 5}
+							if pre == 1 {
+								sc.Ops = append(sc.Ops, SOp{K: "start", W: 1 - starter}, SOp{K: "flush"}, SOp{K: "talk", W: starter, I: 1})
+							}
+							sc.Ops = append(sc.Ops, SOp{K: "start", W: starter})
+							for i := 0; i < k; i++ {
+								sc.Ops = append(sc.Ops, SOp{K: "dl", W: (starter + i) & 1})
+							}
+							sc.Ops = append(sc.Ops, SOp{K: "injrec", W: rcv, I: j, F: 1}, SOp{K: "flush"})
+							if (idx/7)%2 == 1 {
+								sc.Ops = append(sc.Ops, SOp{K: "flush"}) // (parity decides who speaks first in the probe)
+							}
+							sim.Judge(t, "C01stray", sc)
+						}
+					}
+				}
+			}
+		}
+	}
+	sim.MarkCompleted("C01stray", true)
+}
+
+// TestProp_C01_Restart: a session with traffic, then one side's client is restarted and a new exchange follows; either
+// side speaks first afterwards.
+func TestProp_C01_Restart(t *testing.T) {
+	si, sn := sim.Shard()
+	idx := 0
+	for _, v := range []int{3, 2} {
+		for starter := 0; starter < 2; starter++ {
+			for who := 0; who < 2; who++ {
+				for talker := 0; talker < 2; talker++ {
+					for n := 0; n < 4; n++ {
+						for first := 0; first < 2; first++ {
+							idx++
+							if idx%sn != si {
+								continue
+							}
+							sc := &C01Script{Cfg: SessCfg{V: v, SeedA: 740, SeedB: 841, KeyA: 0, KeyB: 3}, KeyM: 5}
+							sc.Ops = append(sc.Ops, SOp{K: "start", W: starter}, SOp{K: "flush"}, SOp{K: "talk", W: talker, I: n}, SOp{K: "restart", W: who}, SOp{K: "flush"})
+							if (len(sc.Ops)+first)%2 == 1 {
+								sc.Ops = append(sc.Ops, SOp{K: "flush"})
+							}
+							sim.Judge(t, "C01restart", sc)
+						}
+					}
+				}
+			}
+		}
+	}
+	sim.MarkCompleted("C01restart", true)
+}
+
 func TestProp_C01_Degenerate(t *testing.T) {
 	si, sn := sim.Shard()
 	idx := 0
